@@ -1,12 +1,12 @@
 SPECIFICATION Spec
 CONSTANTS
-  MaxH = 2
-  MaxRestarts = 1
+  MaxH = 3
+  MaxRestarts = 2
   FullNode = FALSE
   Cap = 2
   Weaken = "none"
-  Direct = FALSE
-  Timeouts = FALSE
+  Direct = TRUE
+  Timeouts = TRUE
 INVARIANT ContainerOK
 INVARIANT TopIsHeight
 INVARIANT StorageShape
